@@ -118,6 +118,9 @@ STATEMENT_TEMPLATES = [
 	'def {n}({h}) -> int:\n\tif a {1} d:\n\t\tb = a {0} d\n\tfor i in range(2):\n\t\td = i\n\treturn a + b + d\n',
 	# unary sign / inversion of a bool stored in an inferred local
 	'def {n}({h}) -> int:\n\tt = -c\n\tu = ~(a {1} b)\n\treturn (t {0} a) + u\n',
+	# destructuring assignment of a tuple literal
+	'def {n}({h}) -> int:\n\tx, y = a {0} 1, b\n\tif x {1} y:\n\t\treturn x - y\n\treturn y\n',
+	'def {n}({h}) -> int:\n\tp, q, r = a, b {0} d, a {1} b\n\treturn (p {0} q) + r\n',
 	# try / raise / except: state written before the raise is kept, the handler runs, the rest of the body is skipped
 	'def {n}({h}) -> int:\n\tx = 0\n\ttry:\n\t\tx = a {0} 1\n\t\tif a {1} b:\n\t\t\traise Exception()\n\t\tx = x {0} d\n\texcept Exception as e:\n\t\tx = x - 1\n\treturn x\n',
 	'def {n}({h}) -> int:\n\tx = d\n\tfor i in range(3):\n\t\ttry:\n\t\t\tif i {1} a:\n\t\t\t\traise Exception()\n\t\t\tx = x {0} i\n\t\texcept Exception as e:\n\t\t\tif c:\n\t\t\t\tbreak\n\t\t\tcontinue\n\treturn x\n',
